@@ -459,3 +459,54 @@ def r02f(model: Model, rr: RuleResult):
                    f"painting (a root style may carry fill / fill-rule next to enable-background)", construct=f"_rawsvg_docs: {short(d, 60)}")
     if not dels:
         rr.ok("no attribute of the source document is deleted besides the remove_attributes calls")
+
+
+@RULES.rule("C02", "R02g", "radial gradient element: every attribute is written under the condition of its own field only (fr iff r0 != 0, fx/fy iff c0 != c1, cx cy r always)", floor=4)
+def r02g(model: Model, rr: RuleResult):
+    from ..guards import canon_facts
+    fi = model.func("svg", "_define_radial_gradient")
+    cfg = cfg_of(fi)
+    want = {"fx": [("paint.c0 == paint.c1", False)], "fy": [("paint.c0 == paint.c1", False)], "fr": [("paint.r0 == 0", False)], "cx": [], "cy": [], "r": []}
+    seen = {}
+    for st in walk_body(fi):
+        if isinstance(st, ast.Assign) and len(st.targets) == 1 and isinstance(st.targets[0], ast.Subscript) and norm(st.targets[0].value).endswith(".attrib") \
+                and isinstance(st.targets[0].slice, ast.Constant) and st.targets[0].slice.value in want:
+            seen[st.targets[0].slice.value] = (st, sorted(canon_facts(cfg, cfg.node_for(st))))
+    for k, w in want.items():
+        if k not in seen:
+            rr.bad_shape(fi, fi.node, f"<radialGradient> {k} is not written", construct=f"_define_radial_gradient: {k}")
+            continue
+        st, facts = seen[k]
+        if facts == sorted(w):
+            rr.ok(f"<radialGradient> {k} written {'always' if not w else 'exactly when ' + ' and '.join(('not ' if not p else '') + t for t, p in w)}")
+        elif all(f in facts for f in w) and len(facts) > len(w):
+            extra = [f for f in facts if f not in w]
+            rr.bad(fi, st, f"<radialGradient> {k} is written only when additionally {extra}: a gradient whose {k} matters but which does not meet that condition is "
+                   f"drawn with the SVG default ({'fr = 0: the colour ramp starts at the centre instead of at the start circle' if k == 'fr' else 'the default'})",
+                   construct=f"_define_radial_gradient: {k} under {extra}")
+        else:
+            rr.bad_shape(fi, st, f"<radialGradient> {k} is written under {facts}", construct=f"_define_radial_gradient: {k} under {facts}")
+
+
+@RULES.rule("C02", "R02h", "a layer is drawn into its NEAREST enclosing group element (prefixes of the paint path are tried longest first)", floor=1)
+def r02h(model: Model, rr: RuleResult):
+    fi = model.func("svg", "_add_glyph")
+    # reference idiom: `while path: if path in el_by_path: parent_el = el_by_path[path]; break; path = path[:-1]`
+    loops = [st for st in walk_body(fi) if isinstance(st, ast.While) and any(isinstance(b, ast.Assign) and norm(b.value).endswith("[:-1]") for b in st.body)]
+    desc = [lp for lp in loops if any(isinstance(b, ast.If) and " in el_by_path" in norm(b.test) and any(isinstance(x, ast.Break) for x in ast.walk(b)) for b in lp.body)]
+    if desc:
+        rr.ok("_add_glyph walks the paint path from the longest prefix down and stops at the first group element found")
+        return
+    # a search over prefixes in another spelling: positive when the prefixes are generated shortest first and the first hit is taken
+    for n in walk_body(fi):
+        if isinstance(n, ast.Call) and norm(n.func) == "next" and n.args and isinstance(n.args[0], ast.GeneratorExp) and "el_by_path" in norm(n.args[0]):
+            from ..dataflow import resolved as _r2h
+            cfg = cfg_of(fi)
+            g = _r2h(cfg, cfg.node_for(n), n.args[0])
+            t = norm(g)
+            asc = ("range(1, len(" in t and "[:" in t) and "reversed(" not in t and ", -1)" not in t
+            if asc:
+                rr.bad(fi, n, f"{short(n, 90)} tries the prefixes of the paint path shortest first, so a layer inside a nested group is drawn into the OUTERMOST enclosing "
+                       f"element: nested opacity groups lose their nesting and the inner opacity replaces the outer one", construct="_add_glyph: enclosing group search order")
+                return
+    rr.bad_shape(fi, fi.node, "the search for the enclosing group element is not the longest-prefix-first walk", construct="_add_glyph: enclosing group search")
